@@ -196,7 +196,7 @@ func c13TypeOps(r *wk.Rand, shape *gen.Shape, env *gen.Env, twin schema.Type) []
 }
 
 func runC13(c *wk.Ctx) {
-	c.Meta("rule", "per trial two equal instances are made: one is used sequentially (what each call returns in isolation, evaluated twice - calls that are not deterministic in isolation are not compared), the other is touched for the first time by 2..16 goroutines released together, each issuing the calls in its own shuffled order (so different first-use paths collide). Instances: (a) generated shapes (units, defaults, struct-mapped objects, references, one-ofs) built through the constructors with freshly constructed unit definitions; (b) scopes rebuilt from their description by UnserializeScope (cold default caches); (c) generated plugins: CallStep / CallSignal on the CallableSchema with same and different run IDs; (d) plugin schemas rebuilt by UnserializeSchema; (e) the package-level unit definitions and meta-schemas, each trial in a child process of its own whose very first SDK calls are the racing ones. Calls: Unserialize -> Validate -> Serialize chains, ValidateCompatibility with data, with the schema itself and with a twin, SelfSerialize, GetDefaults, Parse*/Format* of units, UnserializeScope / UnserializeSchema / Describe*(). Oracle: every concurrent outcome (canonical value or error / panic) equals the isolated one; the race variant is the same workload built with -race, every report is a violation keyed by the two SDK functions. distinct = hash(kind, shape, goroutines, order); non-trivial = all")
+	c.Meta("rule", "per trial two equal instances are made: one is used sequentially (what each call returns in isolation, evaluated twice - calls that are not deterministic in isolation are not compared), the other is touched for the first time by 2..16 goroutines released together, each issuing the calls in its own shuffled order (so different first-use paths collide). Instances: (a) generated shapes (units, defaults, struct-mapped objects, references, one-ofs) built through the constructors with freshly constructed unit definitions; (b) scopes rebuilt from their description by UnserializeScope (cold default caches); (c) generated plugins: CallStep / CallSignal on the CallableSchema with same and different run IDs; (d) plugin schemas rebuilt by UnserializeSchema; (e) the package-level unit definitions and meta-schemas, each trial in a child process of its own whose very first SDK calls are the racing ones. Calls: Unserialize -> Validate -> Serialize chains, ValidateCompatibility with data, with the schema itself and with a twin, SelfSerialize, GetDefaults, Parse*/Format* of units, UnserializeScope / UnserializeSchema / Describe*(). Oracle: every concurrent outcome (canonical value or error / panic) equals the isolated one; the race variant is the same workload built with -race, every report is a violation keyed by the two SDK functions. distinct = hash(kind, shape, goroutines, order); non-trivial = all Directed: 16 goroutines inside one any-typed property with values nested 1..40 levels (constructor-built and rebuilt), each outcome compared with a twin used by one goroutine.")
 	c.Meta("assumptions", []string{"error values are compared by presence only (messages may legitimately depend on map iteration order)",
 		"ValidateCompatibility between distinct instances is skipped for recursive shapes (C15 known finding)"})
 	c.Floor("concurrent_calls", 20000)
